@@ -23,6 +23,7 @@ class Ledger(object):
         self.sess = {}
         self.reqs = {}
         self.timers = {}                # tid -> dict(kind, ci, due, t0, seq, pkt, req, alive, fired)
+        self.alive = {}                 # tid -> same dict, live timers only
         self.violations = []
         self.seen_sigs = set()
         self.tainted = set()
@@ -64,7 +65,7 @@ class Ledger(object):
 
     def live_timers(self, ci=None, kinds=None):
         out = []
-        for tid, tm in self.timers.items():
+        for tid, tm in self.alive.items():
             if not tm["alive"]:
                 continue
             if ci is not None and tm["ci"] != ci:
@@ -91,6 +92,14 @@ class Ledger(object):
         self._replay(d)
         self.disps += 1
         self.last = d
+        if self.disps % 64 == 0:
+            # keep the per-address request lists short (long histories): settled
+            # requests older than the previous dispatch are not needed by any rule
+            for ss in self.sess.values():
+                if len(ss.reqs) > 64:
+                    keep = set(id(r) for r in ss.fifo) | set(id(r) for r in ss.dead_fifo)
+                    ss.reqs = [r for r in ss.reqs if r.ended is None or r.ended >= d.seq - 1 or id(r) in keep
+                               or not r.fires]
         for r in self.rules:
             r.after(d)
         self._abstract(d)
@@ -331,6 +340,7 @@ class Ledger(object):
                 tm["alive"] = False
                 tm["fired_seq"] = d.seq
                 tm["fired_t"] = d.t
+                self.alive.pop(d.info["tid"], None)
             d.fired = tm
         if d.kind == "lost" and c0 is not None:
             d.lost_conn = c0
@@ -358,6 +368,7 @@ class Ledger(object):
                 self.timers[tid] = {"tid": tid, "kind": kind, "ci": ci, "due": due, "t0": d.t, "seq": d.seq,
                                     "pkt": None, "req": None, "alive": True, "label": label,
                                     "jit": None}
+                self.alive[tid] = self.timers[tid]
                 if kind == "plain":
                     d.plain.append(tid)
                 elif kind == "loop":
@@ -369,6 +380,7 @@ class Ledger(object):
                 if tm is not None:
                     tm["alive"] = False
                     tm["cancel_seq"] = d.seq
+                    self.alive.pop(it[1], None)
             elif k == "F":
                 self._on_fire(d, it[1], it[2], it[3])
             elif k == "CB":
@@ -809,7 +821,7 @@ class Ledger(object):
                 nsub += 1
             elif r.kind == "unsubscribe":
                 nunsub += 1
-        nt = sum(1 for tm in self.timers.values() if tm["alive"])
+        nt = len(self.alive)
         st = (c.profile, c.state, c.closing, c.clean, c.keepalive > 0, min(len(s.fifo), 3), min(npend1, 3),
               min(npend2, 3), min(nsub, 2), min(nunsub, 2), min(len(s.inex), 2), min(nt, 5))
         what = d.kind
